@@ -381,8 +381,9 @@ def r16e(ctx: Context) -> None:
     if sites < 1500:
         raise AnalysisError(f"only {sites} ParserLogger call sites resolved (1 979 confirmed)")
     munge = prog.method(PLOG, "__munge")
+    vararg = munge.node.args.vararg.arg if munge.node.args.vararg else (munge.params[-1] if munge.params else "args")  # type: ignore[attr-defined]
     verbatim = any(
-        (isinstance(n, ast.IfExp) and norm(n.test) in ("args", "not args")) or (isinstance(n, ast.If) and norm(n.test) in ("args", "not args"))
+        isinstance(n, (ast.IfExp, ast.If)) and norm(n.test) in (vararg, f"not {vararg}")
         for n in walk_local(munge.node)
     )
     if verbatim:
